@@ -20,7 +20,7 @@ EXPLANATION = (
     "returned exactly on its true edge; (VIEW) len/is_empty/contains_key/capacity read slab/keys/capacity; Stream::poll_next only "
     "drops the key; Keyed::poll_next forwards unchanged; extend inserts every item; (POLL) a member is polled only if Pending and "
     "armed, with an index drawn from keys. The history-level statement follows by induction over operations; it is not enumerated.")
-EXPLANATION += (" (CTOR) with_capacity / new build slab, waker table, state table and capacity consistently; insert_pinned does the same bookkeeping as insert after growing both tables to the slab's capacity; extend / from_iter insert every item of the whole iterator exactly once.")
+EXPLANATION += (" (CTOR) with_capacity / new build slab, waker table, state table and capacity consistently; insert_pinned (checked only while it has a caller; crate-private) does the same bookkeeping as insert after growing both tables to the slab's capacity; extend / from_iter insert every item of the whole iterator exactly once.")
 ASSUMPTIONS = [
     "slab::Slab: keys of live entries are distinct and insert returns a key <= len before the insert; BTreeSet is a set (library models)",
     "the induction over operation histories is a paper argument from the per-operation obligations checked here",
